@@ -338,8 +338,10 @@ func (w h2Writer) CloseWrite() error {
 
 func (p proxyHandler) writeErrorResponse(rw http.ResponseWriter, req *http.Request, err error) {
 	res := maybeConnectErrorResponse(err)
+	var challenge []string
 	if res == nil {
 		res = p.errorResponse(req, err)
+		challenge = res.Header.Values("Proxy-Authenticate")
 	}
 	if err := p.modifyResponse(res); err != nil {
 		log.Error(req.Context(), "error modifying error response", "error", err)
@@ -347,6 +349,7 @@ func (p proxyHandler) writeErrorResponse(rw http.ResponseWriter, req *http.Reque
 			proxyutil.Warning(res.Header, err)
 		}
 	}
+	restoreProxyAuthenticate(res, challenge)
 	p.writeResponse(rw, res)
 }
 
